@@ -122,6 +122,42 @@ Theorem standard_header_only_refuted :
                   (enc_opt (choose_standard_only cu st c17_supported_encodings)).
 Proof. exact standard_only_refuted. Qed.
 
+(* 11. Overlapping compressed responses on the shared per-(codec, level) writer pool.
+       Any number of responses, any bodies (as chunk lists), EVERY interleaving of
+       their atomic steps Get; Reset; Write..; CodecClose; Unpin; Put, and every
+       outcome of each pool.Get (any idle writer, or a new one):
+       (a) a writer is in the pool only when no live response references it
+           (whoever references it has run its whole program);
+       (b) a response whose codec Close has run has received exactly one complete
+           stream of its own chunks, and nothing before that — so, with the codec
+           premise of theorem 8, its body decodes to exactly what was written to it;
+       (c) in the decidable form evaluated on the implementation: a Get hands out the
+           writer of response r' only after r' ran its whole program. *)
+Theorem pool_only_holds_unreferenced_writers : forall bodies sched r w,
+  let s := prun true bodies sched in
+  In w (p_pool s) -> p_hold s r = Some w -> (length (body_of bodies r) + 5 <= p_pc s r)%nat.
+Proof. exact pool_never_holds_live_writer. Qed.
+
+Theorem overlapping_responses_lossless : forall bodies sched r,
+  let s := prun true bodies sched in
+  ((length (body_of bodies r) + 3 <= p_pc s r)%nat -> p_sink s r = [Complete (body_of bodies r)]) /\
+  ((p_pc s r <= length (body_of bodies r) + 2)%nat -> p_sink s r = []).
+Proof. exact overlapping_lossless. Qed.
+
+Theorem pool_oracles_legal : forall bodies sched,
+  s_picks_legal bodies (fun _ => O) (map fst sched) (rev (p_picks (prun true bodies sched))) = true.
+Proof. exact honoured_oracles_legal. Qed.
+
+(* The other order of the last two steps (Put, then Unpin) violates both (a) and (b):
+   witness = two responses, B's Get lands between A's Put and A's Unpin. *)
+Theorem put_before_unpin_legacy_refuted :
+  exists bodies sched,
+    (exists r, let s := prun false bodies sched in
+       (length (body_of bodies r) + 3 <= p_pc s r)%nat /\ p_sink s r <> [Complete (body_of bodies r)]) /\
+    (exists k r w, let s := prun false bodies (firstn k sched) in
+       In w (p_pool s) /\ p_hold s r = Some w /\ (p_pc s r < length (body_of bodies r) + 5)%nat).
+Proof. exact put_before_unpin_refuted. Qed.
+
 (* non-vacuity: the codec premise is satisfiable (identity transform), a request
    that negotiates gzip on the custom header only, one stopped by identity, and a
    level sequence that ends enabled after a rejected level *)
@@ -130,5 +166,13 @@ Example premises_satisfiable :
   serve 3%Z (str "br, GZip;q=0.1") (str "zstd") c17_arrow_content_type true = ([], str "gzip", true) /\
   serve 3%Z (str "br, identity") (str "zstd") c17_arrow_content_type true = ([], [], false) /\
   serve 3%Z (str "br") (str "deflate, ZSTD , gzip") c17_arrow_content_type true = (str "zstd", [], true) /\
-  eff_level [(0, true); (4, true); (9, false)]%Z = 4%Z.
-Proof. repeat split; vm_compute; reflexivity. Qed.
+  eff_level [(0, true); (4, true); (9, false)]%Z = 4%Z /\
+  (* a schedule in which the pool really recycles A's writer for B, and one in which
+     A and B overlap on two writers *)
+  (let s := prun true [[1]; [2; 3]] [(0, None); (0, None); (0, None); (0, None); (0, None); (0, None);
+                                     (1, Some 0); (1, None); (1, None); (1, None); (1, None)]%nat in
+   p_hold s 1%nat = p_hold s 0%nat /\ p_sink s 1%nat = [Complete [2; 3]] /\ p_picks s = [Some 0%nat; None]) /\
+  (let s := prun true [[1]; [2; 3]] [(0, None); (1, Some 0); (0, None); (1, None); (1, None); (0, None);
+                                     (1, None); (0, None); (1, None); (0, None); (0, None)]%nat in
+   p_hold s 1%nat <> p_hold s 0%nat /\ p_sink s 0%nat = [Complete [1]] /\ p_sink s 1%nat = [Complete [2; 3]]).
+Proof. repeat split; vm_compute; try reflexivity; discriminate. Qed.
